@@ -82,8 +82,9 @@ prop("C03", level="proof", bounded=True,
           "search from every legal start_pos) and _create_payload are proved against the map view of a leaf-rank fiber: a read returns the stored payload "
           "object or a fresh default and changes only the saved-position bookkeeping; a reference inserts at exactly the sorted position, returns the "
           "stored object itself and shifts nothing else; the answers do not depend on start_pos (the linear search is proved to return the bisect "
-          "partition point). In-place operators return self (C11 contracts), which makes the handle's updates visible. Deeper points (recursion through "
-          "interior ranks, default sub-fiber synthesis, Tensor-level delegation, rank-0) are decided by the bounded part: every accessor op on every "
+          "partition point). In-place operators return self (C11 contracts), which makes the handle's updates visible. Tensor.getPayload / getPayloadRef of a 1-D "
+          "tensor are proved to answer exactly as the root fiber does. Deeper points (recursion through "
+          "interior ranks, default sub-fiber synthesis, deeper tensors, rank-0) are decided by the bounded part: every accessor op on every "
           "small tree at depth 1-2 and seeded random interleavings at depth 1-3 against a dict oracle with tree+rank-list snapshots around reads.",
      note="Trusted: pyvc, z3/cvc5, bisect.bisect_left; tier-B contracts of _createDefault/getDefault (ghost default), Metrics.addUse (collection off in the proof). "
           "A start_pos is legal iff start_pos==0 or coords[start_pos] <= coord (what getPayload asserts).",
